@@ -192,11 +192,13 @@ void ep3_mul_sim_trick(ep3_t r, const ep3_t p, const bn_t k, const ep3_t q,
 		const bn_t m) {
 	ep3_t t0[1 << (RLC_WIDTH / 2)], t1[1 << (RLC_WIDTH / 2)];
 	ep3_t t[1 << (RLC_WIDTH - RLC_WIDTH % 2)];
-	bn_t n;
+	bn_t n, _k, _m;
 	size_t l0, l1, w = RLC_WIDTH / 2;
 	uint8_t w0[2 * RLC_FP_BITS], w1[2 * RLC_FP_BITS];
 
 	bn_null(n);
+	bn_null(_k);
+	bn_null(_m);
 
 	if (bn_is_zero(k) || ep3_is_infty(p)) {
 		ep3_mul(r, q, m);
@@ -209,8 +211,13 @@ void ep3_mul_sim_trick(ep3_t r, const ep3_t p, const bn_t k, const ep3_t q,
 
 	RLC_TRY {
 		bn_new(n);
+		bn_new(_k);
+		bn_new(_m);
 
+		/* The recoding buffers only cover twice the field size. */
 		ep3_curve_get_ord(n);
+		bn_mod(_k, k, n);
+		bn_mod(_m, m, n);
 
 		for (int i = 0; i < (1 << w); i++) {
 			ep3_null(t0[i]);
@@ -225,18 +232,12 @@ void ep3_mul_sim_trick(ep3_t r, const ep3_t p, const bn_t k, const ep3_t q,
 
 		ep3_set_infty(t0[0]);
 		ep3_copy(t0[1], p);
-		if (bn_sign(k) == RLC_NEG) {
-			ep3_neg(t0[1], t0[1]);
-		}
 		for (int i = 2; i < (1 << w); i++) {
 			ep3_add(t0[i], t0[i - 1], t0[1]);
 		}
 
 		ep3_set_infty(t1[0]);
 		ep3_copy(t1[1], q);
-		if (bn_sign(m) == RLC_NEG) {
-			ep3_neg(t1[1], t1[1]);
-		}
 		for (int i = 1; i < (1 << w); i++) {
 			ep3_add(t1[i], t1[i - 1], t1[1]);
 		}
@@ -252,8 +253,8 @@ void ep3_mul_sim_trick(ep3_t r, const ep3_t p, const bn_t k, const ep3_t q,
 #endif
 
 		l0 = l1 = RLC_CEIL(2 * RLC_FP_BITS, w);
-		bn_rec_win(w0, &l0, k, w);
-		bn_rec_win(w1, &l1, m, w);
+		bn_rec_win(w0, &l0, _k, w);
+		bn_rec_win(w1, &l1, _m, w);
 
 		ep3_set_infty(r);
 		for (int i = RLC_MAX(l0, l1) - 1; i >= 0; i--) {
@@ -268,6 +269,8 @@ void ep3_mul_sim_trick(ep3_t r, const ep3_t p, const bn_t k, const ep3_t q,
 	}
 	RLC_FINALLY {
 		bn_free(n);
+		bn_free(_k);
+		bn_free(_m);
 		for (int i = 0; i < (1 << w); i++) {
 			ep3_free(t0[i]);
 			ep3_free(t1[i]);
